@@ -6,7 +6,9 @@ props = {json.loads(l)["id"]: json.loads(l) for l in (VERIF / "properties.jsonl"
 
 # id -> (technique, level text, level note, design ref)
 CLAIMED = {}
-exec((VERIF / "harness" / "manifest_table.py").read_text())
+NOT_YET = {}
+for f in sorted((VERIF / "harness" / "manifest.d").glob("*.py")):
+    exec(f.read_text())
 
 checks = []
 for pid in sorted(CLAIMED):
@@ -25,7 +27,7 @@ for pid in sorted(CLAIMED):
 na = [dict(property_id=p, reason=NOT_YET.get(p, "not yet built in this round: no theorem and no check exists for it, so it is not claimed (see DESIGN.md section 8 for the plan)")) for p in sorted(props) if p not in CLAIMED]
 m = dict(
     version=1,
-    setup_cmd="cd lean && lake build Drx DrxProofs DrxProps drxmodel",
+    setup_cmd="./setup.sh",
     hooks=dict(guard="SYSTEM25_DRXTRACT_VERIF", enable="no hooks are needed: the harness observes the real code in-process by ordinary introspection",
                baseline_off_cmd="cd /repo && /venv/bin/python -m pytest -ra -q -p no:cacheprovider --timeout=900", source_commits=[], add_only=True),
     engines=[dict(name="lean4-proof+correspondence", path="lean/ + harness/", serves_properties=sorted(CLAIMED),
